@@ -92,16 +92,21 @@ func snapAttempt(e *Event, a failsafe.ExecutionAttempt[R]) {
 		return
 	}
 	e.Flags |= FHasExec
-	e.Attempts, e.Executions, e.Retries, e.Hedges = a.Attempts(), a.Executions(), a.Retries(), a.Hedges()
+	simrt.Quiet(func() {
+		e.Attempts, e.Executions, e.Retries, e.Hedges = a.Attempts(), a.Executions(), a.Retries(), a.Hedges()
+		if a.IsFirstAttempt() {
+			e.Flags |= FFirst
+		}
+		if a.IsRetry() {
+			e.Flags |= FRetry
+		}
+	})
 	e.LastVal, e.LastErr = a.LastResult(), a.LastError()
+	if cz, ok := a.(interface{ IsCanceled() bool }); ok && cz.IsCanceled() {
+		e.Flags |= FIsCanceled
+	}
 	e.Start = a.StartTime().Sub(simrt.S.Start())
 	e.AttemptStart = a.AttemptStartTime().Sub(simrt.S.Start())
-	if a.IsFirstAttempt() {
-		e.Flags |= FFirst
-	}
-	if a.IsRetry() {
-		e.Flags |= FRetry
-	}
 	if a.IsHedge() {
 		e.Flags |= FHedge
 	}
@@ -113,7 +118,9 @@ func snapInfo(e *Event, a failsafe.ExecutionInfo) {
 		return
 	}
 	e.Flags |= FHasExec
-	e.Attempts, e.Executions, e.Retries, e.Hedges = a.Attempts(), a.Executions(), a.Retries(), a.Hedges()
+	simrt.Quiet(func() {
+		e.Attempts, e.Executions, e.Retries, e.Hedges = a.Attempts(), a.Executions(), a.Retries(), a.Hedges()
+	})
 	e.Start = a.StartTime().Sub(simrt.S.Start())
 }
 
